@@ -31,6 +31,10 @@ class Prop(G.InputPropBase):
         cs += G.transition_sweep()
         cs += G.key_space(tier)
         cs += G.mouse_sweep(tier)
+        # history independence over a grammar wider than the item language: the whole stream vs each segment alone
+        for i in range(3000 if tier == "quick" else 60000):
+            line, cfgs = G.hist_case(rng, rng.choice([2, 2, 3, 4, 6]), "C05")
+            cs.append(Case(line, cfgs=cfgs, tag="history-independence"))
         if tier == "thorough":
             cs += G.two_byte_sweep()
         # every single item kind with every option, from a dirty decoder (prefix = a sequence that leaves scratch behind)
